@@ -25,9 +25,20 @@ static void op_redc_1(int argc, char **argv)
   out_limbs(cp, n); outul(inv);
   if (!gbuf_ok(tp, 2 * n) || !gbuf_ok(mp, n) || !gbuf_ok(cp, n)) outs("REDZONE");
   gbuf_free(tp); gbuf_free(mp); gbuf_free(cp); }
+/* mpn_redc_n n T M : T has 2n limbs with high half below M, M odd n limbs (n > 8); the n-limb inverse comes from mpn_binvert as in
+   mpn_powm.  The result is the canonical residue T * B^-n mod M. */
+static void op_redc_n(int argc, char **argv)
+{ (void)argc; mp_size_t n = arg_l(argv[1]);
+  mp_ptr tp = gbuf_alloc(2 * n), mp = gbuf_alloc(n), cp = gbuf_alloc(n), ip = gbuf_alloc(n), sc = gbuf_alloc(mpn_binvert_itch(n) + 2 * n);
+  parse_limbs(argv[2], tp, 2 * n); parse_limbs(argv[3], mp, n);
+  mpn_binvert(ip, mp, n, sc);
+  mpn_redc_n(cp, tp, mp, n, ip);
+  out_limbs(cp, n);
+  if (!gbuf_ok(tp, 2 * n) || !gbuf_ok(mp, n) || !gbuf_ok(cp, n) || !gbuf_ok(ip, n)) outs("REDZONE");
+  gbuf_free(tp); gbuf_free(mp); gbuf_free(cp); gbuf_free(ip); gbuf_free(sc); }
 static void op_powmcheck(int argc, char **argv) { (void)argc; (void)argv; outl(1); }
 const op_t ops_pow[] = {
   {"mpz_powm", op_powm}, {"mpz_powm_ui", op_powm_ui}, {"mpz_pow_ui", op_pow_ui}, {"mpz_ui_pow_ui", op_ui_pow_ui},
-  {"mpn_redc_1", op_redc_1}, {"powmcheck", op_powmcheck},
+  {"mpn_redc_1", op_redc_1}, {"mpn_redc_n", op_redc_n}, {"powmcheck", op_powmcheck},
   {NULL, NULL}
 };
